@@ -301,6 +301,11 @@ def run(rep, tier):
         c10.clause_escape_flag(facts, rep, ns)
         c10.clause_escape_carry(facts, rep, ns)
         c10.clause_escaped_bits(facts, rep, tier)
+        # source keys are matched against the target through the lookup map (CreateMap / FindMember): its comparator must be
+        # the unsigned lexicographic order on every path, or a key that is present is not found and gets appended (shared with C14)
+        from . import c14
+        c14.clause_c(facts, rep)
+        c14.clause_e(facts, rep, ns, min_returns=(6 if cfg == 'K1' else 1))
     rep.min_instances('E3.decode-buffer', 4)
     rep.trust('clang 14 front end', 'zone analysis and callee summaries of C11', 'contract of parseStringInplace: scans to the first unescaped quote with VEC_LEN-byte block loads')
     rep.assumptions += [
